@@ -180,6 +180,10 @@ def run(ctx):
         wd = np.asarray(want.data)
         mx = float(np.max(np.abs(np.where(np.isfinite(wd), wd, 0)))) + 1e-300 if wd.size else 1.0
         tol = (2e-6 if single else 1e-12) * mx
+        if name == 'coherent' and not single:
+            # the chirp phase (up to ~1e6 cycles, float64) is evaluated by numpy's vectorised kernels, whose last bit depends on the
+            # position of an element in its block; a 1-ulp phase difference is ~7e-16 * |phase| in the chirp: 1e-7 covers it
+            tol = 1e-7 * mx
         for sch in scheds:
             ctx.count('scheduler:' + sch)
             try:
@@ -329,7 +333,7 @@ def run(ctx):
         wd, gd = np.asarray(want.data), np.asarray(gc.data)
         fin = np.isfinite(wd)
         mx = float(np.max(np.abs(np.where(fin, wd, 0)))) + 1e-300 if wd.size else 1.0
-        tol = (2e-5 if single else 1e-11) * mx
+        tol = (2e-5 if single else (1e-7 if name == 'coherent' else 1e-11)) * mx
         e = float(np.max(np.abs(np.where(fin, gd - wd, 0)))) if wd.size else 0.0
         ctx.ratio(e, tol)
         if not np.array_equal(fin, np.isfinite(gd)) or not (e <= tol):
